@@ -203,6 +203,14 @@ def render_b(idx, pats, mode):
         clause = f"let (clause, line) = (Mk::f.stub(|each| {{ each.call(matching!({pat_text})).returns(1u32); each.call(&|m| {{ m.func(|_, _| false); }}).returns(2u32); }}), line!());"
         head = "No matching call patterns."
         prefix = ""
+    elif mode == "ordered-multiline":
+        # the invocation spans several lines: the pattern is named by the line of `matching!(`
+        new = "Unimock::new(clause)"
+        spread = (",\n                ").join(pats)
+        clause = f"let (line, clause) = (line!(), Mk::f.next_call(matching!(\n                {spread}\n            )).returns(1u32));"
+        head = "but inputs didn't match"
+        prefix = ""
+        mode = "ordered"
     else:
         new = "Unimock::new(clause)"
         clause = f"let (clause, line) = (Mk::f.next_call(matching!({pat_text})).returns(1u32), line!());"
@@ -364,8 +372,10 @@ def instances(tier):
                 continue
             if quick and n == 3 and pats.count("_") == 0:
                 continue
-            for mode in ("unordered", "unordered2", "ordered"):
+            for mode in ("unordered", "unordered2", "ordered", "ordered-multiline"):
                 if mode == "unordered2" and (quick or n == 3):
+                    continue
+                if mode == "ordered-multiline" and (pinned_text(pats) is None or (quick and n == 3)):
                     continue
                 add(f"mismatch:({', '.join(pats)})/{mode}", render_b(len(insts), list(pats), mode), {"part": "B"})
     # (B, typed) Option<u8> positions: refutable bare identifiers, tuple-struct and or-patterns
